@@ -238,7 +238,7 @@ Section C12.
 
   Ltac fin :=
     rewrite ?wrap_after, ?after_after; unfold TraceProofs.after, TraceProofs.wrap_out;
-    cbn [fst snd app]; rewrite <- ?app_assoc; cbn [app]; rewrite ?app_nil_r; try reflexivity.
+    cbn [fst snd app]; repeat (rewrite <- app_assoc; cbn [app]); rewrite ?app_nil_r; try reflexivity.
 
   (** PROPAGATION: a failure in strict position reaches the node's caller with the same cause,
       the same store, and the node's events followed by the failing sub-evaluation's *)
@@ -351,3 +351,78 @@ Section C12.
     - pose proof (eval_err_true S _ _ _ _ _ _ _ _ _ _ _ _ _ Hx) as ->. exact Hx.
     - specialize (IH Hx). rewrite <- app_assoc. eapply strict_pos_propagates; eauto.
   Qed.
+
+  (** ** Where causes are raised (the leaves) *)
+  Lemma raise_switch disp tbl o s k s1 l1 :
+    eval disp o s = (Ok k, s1, l1) -> hashable k = true -> assoc_v k tbl = None ->
+    eval (ESwitch disp tbl None) o s = (Err CSwitch true, s1, l1).
+  Proof.
+    intros H Hh Ha. rewrite eval_switch_E, wrap_eval_out. bok (dispatch_ok _ (is_some (@None expr)) _ _ _ _ H).
+    rewrite Hh. cbn [negb]. rewrite pick_assoc, Ha. cbn [dflt_or]. fin.
+  Qed.
+  Lemma raise_case disp cases o s x s1 l1 s2 l2 :
+    eval disp o s = (Ok x, s1, l1) -> conds_false o x cases s1 s2 l2 ->
+    eval (ECase disp cases None) o s = (Err CCase true, s2, l1 ++ l2).
+  Proof.
+    intros H Hc. rewrite eval_case_E, wrap_eval_out. bok H.
+    rewrite (case_loop_all_false _ _ _ _ _ _ _ _ Hc). cbn [dflt_or]. fin.
+  Qed.
+
+  Definition user_fun (f : N) : bool :=
+    negb (N.eqb f B_LIST || N.eqb f B_TUPLE || N.eqb f B_DICT).
+
+  (** user code raising its n-th exception class: the body did run (event), the raw exception
+      is not an EvaluationError yet *)
+  Lemma raise_user f args n s :
+    user_fun f = true -> deep_err_list args = None -> ucall f (map listify args) = CRaise n ->
+    call_fun S ucall f args s = (Err (CUser n) false, s, [EvCall f (map listify args)]).
+  Proof.
+    unfold user_fun. intros Hf Hd Hu. apply negb_true_iff in Hf.
+    apply orb_false_elim in Hf as [Hf H3]. apply orb_false_elim in Hf as [H1 H2].
+    unfold call_fun. rewrite H1, H2, H3, Hd, Hu. reflexivity.
+  Qed.
+
+  (** a FunctionApplication: everything before the call succeeded, then the outcome of the
+      call, wrapped (shared with C06: the events of the arguments come first) *)
+  Lemma eval_call_decompose fe args kwargs o s fv s1 l1 av s2 l2 kv s3 l3 :
+    eval fe o s = (Ok fv, s1, l1) ->
+    mapM S (fun y => eval y o) args s1 = (Ok av, s2, l2) ->
+    mapM S (fun y => eval y o) kwargs s2 = (Ok kv, s3, l3) ->
+    eval (ECall false fe args kwargs) o s =
+      wrap_out (after (l1 ++ l2 ++ l3) (call_value_n S ucall fv (av ++ kv) s3)).
+  Proof.
+    intros H1 H2 H3. rewrite eval_call_E, wrap_eval_out. bok H1. bok H2. bok H3.
+    rewrite !after_after. now rewrite <- !app_assoc.
+  Qed.
+
+  Lemma raise_user_in_body fe args kwargs o s fid pre post s1 l1 av s2 l2 kv s3 l3 n :
+    eval fe o s = (Ok (VF fid pre post), s1, l1) ->
+    mapM S (fun y => eval y o) args s1 = (Ok av, s2, l2) ->
+    mapM S (fun y => eval y o) kwargs s2 = (Ok kv, s3, l3) ->
+    N.eqb fid B_COMPOSE = false -> user_fun fid = true ->
+    deep_err_list (pre ++ (av ++ kv) ++ post) = None ->
+    ucall fid (map listify (pre ++ (av ++ kv) ++ post)) = CRaise n ->
+    eval (ECall false fe args kwargs) o s =
+      (Err (CUser n) true, s3, l1 ++ l2 ++ l3 ++ [EvCall fid (map listify (pre ++ (av ++ kv) ++ post))]).
+  Proof.
+    intros H1 H2 H3 Hc Hu Hd Hr. rewrite (eval_call_decompose _ _ _ _ _ _ _ _ _ _ _ _ _ _ H1 H2 H3).
+    unfold call_value_n. rewrite Hc. rewrite (raise_user _ _ _ _ Hu Hd Hr). fin.
+  Qed.
+
+  (** ** What the deferring handlers do: the element's cause is kept, and raised by whoever
+      consumes the iterable *)
+  Notation iter_loop := (iter_loop S mem_find mem_store cfg ucall rfuel site_ok).
+  Lemma iter_defers_head o x rest s c ee s1 l1 :
+    eval x o s = (Err c ee, s1, l1) -> c <> CUnmodelled ->
+    iter_loop o (x :: rest) s = (Ok [VErr c], s1, l1).
+  Proof.
+    intros H Hc. cbn [TraceProofs.iter_loop].
+    assert (Hb : bind (eval x o) (fun v => if is_some (deep_err v) then ret [v]
+                   else bind (iter_loop o rest) (fun vs => ret (v :: vs))) s = (Err c ee, s1, l1))
+      by (now berr H).
+    rewrite (catch_errE S _ _ _ _ _ _ _ Hb Hc). fin.
+  Qed.
+  Lemma consumer_raises_deferred t vs c s :
+    (N.eqb t T_ITER || N.eqb t T_LIST || N.eqb t T_TUPLE) = true -> first_err vs = Some c ->
+    force_elems S (VT t vs) s = (Err c true, s, []).
+  Proof. intros Ht Hf. unfold force_elems, elements_of. rewrite Ht, Hf. reflexivity. Qed.
